@@ -280,6 +280,15 @@ def run_property(prop, tier, seed, replay=None):
         i2, m2, _ = run_all(prop, cands)
         return i2, m2
 
+    def safe_candidates(case):
+        # a plugin that cannot shrink a case of a population it has borrowed must not cost the verdict: an un-shrunk
+        # replay is still a replay
+        try:
+            return prop.shrink_candidates(case)
+        except Exception as ex:
+            log(f"[{pid}] shrink_candidates failed ({type(ex).__name__}: {ex}); the case is kept as it is")
+            return []
+
     def shrink_failure(case, kind):
         def failing(cands):
             i2, m2 = rerun(cands)
@@ -294,13 +303,13 @@ def run_property(prop, tier, seed, replay=None):
                     f = None
                 res.append(bool(f) and f["kind"] == kind)
             return res
-        return core.shrink(case, failing, prop.shrink_candidates, max_seconds=shrink_left())
+        return core.shrink(case, failing, safe_candidates, max_seconds=shrink_left())
 
     def shrink_disagreement(case):
         def failing(cands):
             i2, m2 = rerun(cands)
             return [core.compare_case(c, i2, m2, prop.project, prop.compare_from(c)) is not None for c in cands]
-        return core.shrink(case, failing, prop.shrink_candidates, max_seconds=shrink_left())
+        return core.shrink(case, failing, safe_candidates, max_seconds=shrink_left())
 
     # group failures by signature of the un-shrunk case first to bound the work
     done_sigs = set()
